@@ -59,6 +59,28 @@ CHECKS = {
         design_ref="DESIGN.md section 5 C17"),
 }
 
+ASSIGN = "TLA+ spec of structural assignment (spec/ISAlign.tla, ISAssign.tla, MC_Assign.tla) model-checked by TLC; TLC-emitted (term, value, approved set) cases replayed into the real code"
+CHECKS.update({
+    "C02": dict(
+        category="model_checking", technique=ASSIGN,
+        text="TLC checks ManagedEq(Assign(term, value, {create, fix}), value) over four bounded shape universes "
+             "(sequences, nested lists, dicts, constructor calls; hand-written leaves, Is(), f-strings, starred and "
+             "non-display containers); every emitted case is executed, the rewritten argument abstracted back and "
+             "judged (managed parts equal, passes when disabled iff no user part disagrees)",
+        design_ref="DESIGN.md section 5 C02"),
+    "C10": dict(
+        category="model_checking", technique=ASSIGN,
+        text="invariant: the user-controlled sub-terms of the result are an ordered selection of the original ones; "
+             "in the replay every such part carries a unique id and must be found unchanged wherever the model keeps it",
+        design_ref="DESIGN.md section 5 C10"),
+    "C11": dict(
+        category="model_checking", technique=ASSIGN + "; alignment as relation + transcription",
+        text="TLC checks that the transcription of align/nw_align/add_x satisfies the relation GoodScript (maximal "
+             "matches, prefix/suffix) on all bounded pairs and that matched/equal parts keep their term; replay with fix "
+             "only counts the verbatim survivors (unique ids) against the LCS length",
+        design_ref="DESIGN.md section 5 C11"),
+})
+
 NOT_YET = {
 }
 
